@@ -60,7 +60,9 @@ def oracle(ctx, form, obs):
 
 def form_case(ctx, form):
     r = impl.run(form)
-    m = formcommon.model_call(ctx, form)
+    m = formcommon.model_call(ctx, form, op="controls.model")
+    if m["outcome"] == "unsupported":
+        ctx.count("unsupported: " + m.get("why", "?"))
     ctx.count(f"impl:{r['class']}/model:{m['outcome']}")
     nontrivial = False
     if r["ok"]:
